@@ -93,3 +93,97 @@ def get_units():
     crc.shards = 16
     us += [crc, K.ComputeLRC().unit()]
     return us
+
+
+# --------------------------------------------------------------------------- receive side: whole-frame round trip
+from . import framers as F
+
+
+def round_trip(kind):
+    """buildPacket(m) handed, whole, to a FRESH receiver of the same framing delivers exactly one message: the one the decoder
+    makes from exactly m's PDU (function code + data), with the unit id (where carried) and, on TCP, tid/pid preserved"""
+    def lemma(E):
+        msg, data, t, p, u, fc = any_message(E)
+        rec = F.Rec()
+        pkt_holder = []
+        f = F.fresh_framer(E, kind, rec, outcomes=('message',), size_of=lambda fcode, buf: L.length(pkt_holder[0]))
+        sender = framer(E, F.QUAL[kind])
+        pkt = E.method(sender, 'buildPacket', msg)
+        pkt_holder.append(pkt)
+        fk = {}
+        if kind == 'binary':
+            # known finding: delimiter bytes in the payload are doubled by the sender and never un-doubled by the receiver;
+            # a '}' inside unit, function code, payload or CRC ends the frame early
+            body = L.concat([u, fc], data, CK.crc_bytes(E, L.concat([u, fc], data)))
+            special = L.exists(0, L.length(body), lambda k: L.Or(L.at(body, k) == 0x7B, L.at(body, k) == 0x7D))
+            fk = {'finding': 'C03-F1', 'region': special}
+        cb = E.callback(F.callback(E, rec), 'callback')
+        units = [u]
+        # TLS frames carry no unit id: the receiver is used the way its own default does (single=True)
+        out = E.attempt(lambda: E.method(f, 'processIncomingPacket', pkt, cb, units, single=(kind == 'tls')))
+        E.prove('roundtrip:no-exception', out.ok, **fk)
+        if not out.ok:
+            return
+        E.prove('roundtrip:exactly-one-message-delivered', len(rec.delivered) == 1, **fk)
+        if len(rec.delivered) != 1:
+            return
+        m, pdu, buf, hdr = rec.delivered[0]
+        E.prove('roundtrip:decoded-from-exactly-the-pdu', L.eq(pdu, L.concat([fc], data)), **fk)
+        if kind != 'tls':
+            E.prove('roundtrip:unit-id-preserved', E.get(m, 'unit_id') == u, **fk)
+        if kind == 'socket':
+            E.prove('roundtrip:transaction-and-protocol-id-preserved', L.And(E.get(m, 'transaction_id') == t, E.get(m, 'protocol_id') == p))
+        E.prove('roundtrip:receiver-buffer-empty-afterwards', L.length(E.get(f, '_buffer')) == 0, **fk)
+    return lemma
+
+
+_units_build = get_units
+
+
+def get_units():
+    us = _units_build()
+    cs = (AnyEncode(), K.ComputeCRC(), K.ComputeLRC())
+    from .C14 import PreflightLen
+    for kind in ('socket', 'tls', 'rtu', 'ascii', 'binary'):
+        u = Unit('C03/roundtrip.%s' % kind, round_trip(kind), ['C03'], contracts=cs + ((PreflightLen(),) if kind == 'binary' else ()),
+                 functions=[F.QUAL[kind] + '.' + m for m in ('buildPacket', 'processIncomingPacket', 'checkFrame', 'getFrame', 'populateResult', 'advanceFrame')])
+        if kind in ('ascii', 'binary'):
+            # bounded stand-in: the delimiter search (find) over hex text / escaped payload and the hex inverse are not discharged
+            # by the solvers within budget; the round trip of these two framings is checked by the executable twin only
+            u.concrete_only = True
+            u.bounded = True
+        us.append(u)
+    return us
+
+
+# --------------------------------------------------------------------------- RTU frame length oracle
+from . import codecs as C
+
+
+def oracle_lemma(c):
+    """K.calculateRtuFrameSize(rtu frame of m) == len(rtu frame of m): the receiver learns the frame extent from the class"""
+    def lemma(E):
+        v = c.view(E)
+        wire = c.wire(E, v)
+        uid = E.int('uid', 0, 256)
+        fcb = c.fc if c.fc is not None else v['original_code'] + 128
+        frame = E.as_bytes(L.concat([uid, fcb], wire, [E.int('crc0', 0, 256), E.int('crc1', 0, 256)]))
+        size = E.classcall(c.cls, 'calculateRtuFrameSize', frame)
+        fk = c.fk('oracle', v)
+        E.prove('oracle:size==length-of-the-rtu-frame', size == L.length(frame), **fk)
+        E.prove('oracle:size>=4', size >= 4)
+    return lemma
+
+
+_units_rt = get_units
+
+
+def get_units():
+    us = _units_rt()
+    for c in C.all_codecs():
+        if isinstance(c, C.DiagWords) and c.nmax > 1:
+            # diagnostic classes declare a constant frame size of 8: right only for exactly one data word
+            c.findings = dict(c.findings)
+            c.findings['oracle'] = ('C03-F2', lambda v: L.length(v['words']) != 1)
+        us.append(Unit('C03/oracle.%s' % c.name, oracle_lemma(c), ['C03'], functions=['pymodbus.pdu.ModbusPDU.calculateRtuFrameSize', 'pymodbus.utilities.rtuFrameSize']))
+    return us
